@@ -1,8 +1,13 @@
 import SaModel.Lemmas.C04Cast
+import SaModel.Lemmas.C04Bytes
 /-
 C04: helpers for typed reads of enums (Union columns).  A well-formed array of the Union an enum is traced to has one
 child per variant, with consecutive type ids; the reader finds the child by type id and the variant by the child's
 NAME (`castVariant … none name`), which is the right one because variant names are distinct.
+
+Enums stored as strings (`enums_without_data_as_strings`: a Dictionary(UInt32, string type) column): the logical value
+is the variant NAME, the reader finds the variant by that name (`castVariantStr_get`; names distinct, a name is
+determined by its UTF-8 bytes: `strBytes_inj`) and answers for unit variants only.
 -/
 namespace SaModel.Roundtrip
 open SaModel SaModel.Spec SaModel.Build
@@ -91,5 +96,47 @@ theorem castVariant_get (child : Arr) (x : LVal) : ∀ (vars : Variants) (i : Na
         rw [hd.1] at hmem; cases hmem
     have ih := castVariant_get child x r i vn kind hd.2 (by simpa [Variants.get?] using h)
     simp [toTargetVariants_cons, Read.castVariant, hne, ih]
+
+/-! ### enums stored as strings -/
+
+/-- the type skeleton of a well-formed dictionary array (the full statement `wf_dictionary` is in C04Reader.lean) -/
+theorem wf_dictionary_shape {nl : Bool} {a : Arr} {k v : DataType} (h : Spec.wf (.dictionary k v) nl a = true) :
+    ∃ ks vs, a = .dictionary ks vs := by
+  cases a <;> try (simp [Spec.wf] at h)
+  case dictionary ks vs => exact ⟨ks, vs, rfl⟩
+  case prim ty v vals => cases ty <;> simp [primMatches] at h
+
+/-- the UTF-8 bytes of a name determine it -/
+theorem strBytes_inj {a b : String} (h : Read.strBytes a = Read.strBytes b) : a = b := by
+  have h1 := unserStr_toUTF8 a
+  have h2 := unserStr_toUTF8 b
+  simp only [Read.strBytes] at h
+  rw [h, h2] at h1
+  exact (Option.some.inj h1).symm
+
+/-- reading a variant NAME from a string column reaches the variant with that name; only a unit variant is answered -/
+theorem castVariantStr_get : ∀ (vars : Variants) (i : Nat) (vn : String) (kind : Variant),
+    hasDup vars.names = false → vars.get? i = some (vn, kind) →
+    Read.castVariantStr (toTargetVariants vars) (Read.strBytes vn) =
+      (match kind with
+       | .unit => Read.must (.enum (nameKey vn) .unit)
+       | _ => Read.mustFail "strings carry no variant data")
+  | .nil, _, _, _, _, h => by simp [Variants.get?] at h
+  | .cons n v r, 0, vn, kind, _, h => by
+    simp only [Variants.get?, Option.some.injEq, Prod.mk.injEq] at h
+    obtain ⟨rfl, rfl⟩ := h
+    cases v <;> simp [toTargetVariants_cons, toTargetKind, Read.castVariantStr, nameKey]
+  | .cons n v r, i + 1, vn, kind, hd, h => by
+    simp only [Variants.names, hasDup, Bool.or_eq_false_iff] at hd
+    have hmem := get?_mem_names r i vn kind (by simpa [Variants.get?] using h)
+    have hne : (Read.strBytes n == Read.strBytes vn) = false := by
+      cases hb : (Read.strBytes n == Read.strBytes vn) with
+      | false => rfl
+      | true =>
+        have : n = vn := strBytes_inj (by simpa using hb)
+        subst this
+        rw [hd.1] at hmem; cases hmem
+    have ih := castVariantStr_get r i vn kind hd.2 (by simpa [Variants.get?] using h)
+    simp only [toTargetVariants_cons, Read.castVariantStr, hne, Bool.false_eq_true, if_false, ih]
 
 end SaModel.Roundtrip
